@@ -1,3 +1,4 @@
+import RagcModel.Gen.Tables
 import RagcModel.Lemmas.Roundtrip
 import RagcModel.Props.C02
 import RagcModel.Props.C07
@@ -299,5 +300,30 @@ example : (List.zip exChoices exPieces).mapM (readBack zcToy zdToy 5 17) = some 
 
 example : exContig.map UInt8.toNat = [0, 1, 0, 4, 1, 1, 0, 1, 2, 2, 2, 0, 1, 3] ∧
     orient true [0, 1, 0, 4, 1] = [2, 4, 3, 2, 3] := by decide
+
+/-! ### per-base reverse-complement rules translated from the source (translator tie)
+
+`tools/gen_tables.py` translates, on every run, the per-base closures of the three places that
+reverse-complement segment data — the worker's precomputed `data_rc`, the classifier's
+`reverse_complement_sequence` (used on split halves) and the reader's
+`reverse_complement_segment` — from the Rust text into `Ragc.Gen.*RcBase`. The theorem says all
+three are the rule the model uses (`Range.complementBase`: complement A/C/G/T, keep every other
+code). Before repair D1 the writer's rule was `kmerRcBase` (every code ≥ 4 ↦ 4) and this statement
+was false (`writerRcBase 5 = 4`); a regression of that kind breaks this obligation. -/
+theorem rc_rules_agree (b : Nat) :
+    Ragc.Gen.writerRcBase b = Ragc.Range.complementBase b ∧
+    Ragc.Gen.workerRcBase b = Ragc.Range.complementBase b ∧
+    Ragc.Gen.readerRcBase b = Ragc.Range.complementBase b := by
+  unfold Ragc.Gen.writerRcBase Ragc.Gen.workerRcBase Ragc.Gen.readerRcBase Ragc.Range.complementBase
+  refine ⟨?_, ?_, ?_⟩ <;> (repeat' split) <;> omega
+
+/-- the k-mer rule (`kmer.rs reverse_complement`) differs from it exactly on codes ≥ 4. -/
+theorem kmer_rc_differs_on_iupac :
+    (∀ b, b < 4 → Ragc.Gen.kmerRcBase b = Ragc.Range.complementBase b) ∧
+    Ragc.Gen.kmerRcBase 5 = 4 ∧ Ragc.Range.complementBase 5 = 5 := by
+  refine ⟨?_, by decide, by decide⟩
+  intro b hb
+  unfold Ragc.Gen.kmerRcBase Ragc.Range.complementBase
+  (repeat' split) <;> omega
 
 end Ragc.Props.C01
